@@ -130,7 +130,7 @@ def run_disc(item):
 def abs_cases(tier):
     atoms = [1, 2, 3, 4, 5]
     subsets = [list(c) for r in range(1, 6) for c in itertools.combinations(atoms, r)]
-    measures = [[1, 2, 3, 1, 2]] + ([[1, 1, 1, 1, 1], [3, 1, 2, 2, 1], [2, 2, 1, 3, 3]] if tier != "quick" else [])
+    measures = [[1, 2, 3, 1, 2], [1, 1, 1, 1, 1]] + ([[3, 1, 2, 2, 1], [2, 2, 1, 3, 3]] if tier != "quick" else [])
     cases = []
     for m in measures:
         for A in subsets:
@@ -386,8 +386,8 @@ def main(tier):
     cat = catalogue()
     ix = idx(cat)
     sd = seed()
-    ntr = 30 if tier == "quick" else 300
-    nprim = 30 if tier == "quick" else 300
+    ntr = 60 if tier == "quick" else 300
+    nprim = 60 if tier == "quick" else 300
 
     # the abstract layer of the spec does not depend on the real code: TLC checks it while the
     # real samplers are being run
